@@ -1,26 +1,40 @@
 package main
 
 import (
+	"encoding/hex"
 	"fmt"
+	"os"
+	"runtime/pprof"
+	"strings"
+	"time"
 
 	"github.com/gopacket/gopacket"
 	"github.com/gopacket/gopacket/layers"
-
-	"verif/engine/dspace"
 )
 
 func main() {
-	sp := dspace.Build(false)
-	fmt.Println("tseeds", len(sp.TSeeds), "neigh", sp.NeighLen())
-	for _, t := range sp.TSeeds {
-		p := gopacket.NewPacket(t.Data, t.First.Dec, gopacket.Default)
-		if l := p.Layer(layers.LayerTypeRADIUS); l != nil {
-			r := l.(*layers.RADIUS)
-			var ts []int
-			for _, a := range r.Attributes {
-				ts = append(ts, int(a.Type))
-			}
-			fmt.Println(t.Name, t.First.Name, ts)
+	b, _ := os.ReadFile("/tmp/hang1.hex")
+	d, _ := hex.DecodeString(strings.TrimSpace(string(b)))
+	go func() {
+		time.Sleep(4 * time.Second)
+		pprof.Lookup("goroutine").WriteTo(os.Stdout, 2)
+		os.Exit(3)
+	}()
+	p := gopacket.NewPacket(d, layers.LinkTypeIEEE80211Radio, gopacket.DecodeOptions{DecodeStreamsAsDatagrams: true})
+	fmt.Println("decoded", len(p.Layers()), p.ErrorLayer())
+	for i, l := range p.Layers() {
+		sl, ok := l.(gopacket.SerializableLayer)
+		if !ok {
+			continue
+		}
+		buf := gopacket.NewSerializeBuffer()
+		pl, _ := buf.AppendBytes(len(l.LayerPayload()))
+		copy(pl, l.LayerPayload())
+		err := sl.SerializeTo(buf, gopacket.SerializeOptions{FixLengths: true, ComputeChecksums: true})
+		fmt.Println("layer", i, l.LayerType(), "serialized", len(buf.Bytes()), err)
+		if err == nil {
+			p2 := gopacket.NewPacket(buf.Bytes(), l.LayerType(), gopacket.DecodeOptions{DecodeStreamsAsDatagrams: true})
+			fmt.Println("  re-decoded", len(p2.Layers()), p2.ErrorLayer() != nil)
 		}
 	}
 }
